@@ -22,7 +22,9 @@ import (
 // C03: the OP never redirects an authorization response or error to an unregistered URI.
 
 var uriPool = []string{"https://app.sim/cb", "https://app.sim/cb?x=1", "http://app.sim/cb", "http://localhost/cb", "http://127.0.0.1:8080/cb", "http://[::1]/cb",
-	"https://localhost/cb", "com.example.app:/cb", "myapp://cb", "https://app.sim/a/b", "http://localhost:3000/cb?y=2", "https://APP.sim/Cb"}
+	"https://localhost/cb", "com.example.app:/cb", "myapp://cb", "https://app.sim/a/b", "http://localhost:3000/cb?y=2", "https://APP.sim/Cb",
+	// exactly registered URIs that contain glob metacharacters: they are strings to compare, never patterns
+	"https://*.app.sim/lit", "https://app.sim/[a-c]lit", "https://app.sim/lit*"}
 var globPool = []string{"https://*.app.sim/cb", "https://app.sim/**", "https://app.sim/cb/*", "http://localhost:*/cb", "com.example.*:/cb", "http://*.app.sim/*", "https://app.sim/[a-c]b"}
 
 // ---- reference matcher, written from the statement ----
@@ -189,9 +191,16 @@ func (c *c03) requested(ch *kernel.Chooser, cl *world.Client) (string, string) {
 	if u != nil {
 		host = u.Host
 	}
-	switch ch.Int(26) {
+	switch ch.Int(27) {
 	case 0, 1, 2, 3:
 		return reg, "exact"
+	case 26:
+		// the registered string read as a pattern (? and * and classes) matches this URI; as a string it does not
+		inst := strings.NewReplacer("?", "X", "*", "zz", "[a-c]", "b").Replace(reg)
+		if inst == reg {
+			inst = reg + "x"
+		}
+		return inst, "exact-read-as-pattern"
 	case 4:
 		return strings.ToUpper(reg[:1]) + reg[1:], "case-scheme"
 	case 5:
